@@ -28,6 +28,9 @@ package signaling
 //   control S RC         control message of S to RC (s<R> | room | call)
 //   tset S K V / tremove S K / tother S     transient data messages
 //   state                nothing (observation only)
+//   storm S P SEED N     real concurrency: one goroutine publishes N random permission updates for S on the bus, the
+//                        last one being P, while another sends N random offers / candidates of S and a third toggles
+//                        the in-call state; observed at quiescence (model side: `storm`, judged on the open objects)
 //
 // Implementation output:  outcome ; messages ; media-server log ; open objects
 //   messages   i:err.<code> | i:answer | i:offer<j | i:msg<j | i:ctl<j | i:tset.k.v | i:trm.k
@@ -46,6 +49,7 @@ import (
 	"net/http"
 	"net/http/httptest"
 	"net/url"
+	"runtime"
 	"sort"
 	"strconv"
 	"strings"
@@ -1024,8 +1028,86 @@ func (w *vC08World) exec(line string) string {
 			return bad
 		}
 		return w.observe("ok")
+	case "storm":
+		if len(f) != 5 {
+			return bad
+		}
+		i, ok := w.sess(f[1])
+		final, ok2 := vC08ParsePerms(f[2])
+		seed, err1 := strconv.ParseUint(f[3], 10, 64)
+		n, err2 := strconv.Atoi(f[4])
+		if !ok || !ok2 || err1 != nil || err2 != nil || n < 1 || n > 200 {
+			return bad
+		}
+		if w.closed[i] {
+			return w.observe("closed")
+		}
+		w.storm(i, final, seed, n)
+		return w.observe("storm")
 	}
 	return bad
+}
+
+// storm: permission updates, client messages and in-call changes of one session, truly concurrent.
+func (w *vC08World) storm(i int, final []Permission, seed uint64, n int) {
+	root := newVRand(seed)
+	ra, rb, rc := root.fork(), root.fork(), root.fork()
+	s := w.sessions[i]
+	var wg sync.WaitGroup
+	wg.Add(3)
+	go func() {
+		defer wg.Done()
+		for k := 0; k < n; k++ {
+			perms := final
+			if k < n-1 {
+				perms, _ = vC08ParsePerms(ra.pick(vC08PublishSets))
+			}
+			w.events.PublishSessionMessage(s.PublicId(), w.backend, &AsyncMessage{Type: "permissions", Permissions: perms}) // nolint
+			if ra.chance(1, 2) {
+				runtime.Gosched()
+			}
+		}
+	}()
+	go func() {
+		defer wg.Done()
+		for k := 0; k < n; k++ {
+			st := "video"
+			if rb.chance(1, 2) {
+				st = "screen"
+			}
+			var msg *ClientMessage
+			if rb.chance(3, 4) {
+				sdp, _ := vC08Sdp(rb.pick(vC08MLines))
+				msg = w.clientMessage(i, map[string]interface{}{"type": "offer", "sid": "1", "roomType": st,
+					"payload": map[string]interface{}{"type": "offer", "sdp": sdp}})
+			} else {
+				msg = w.clientMessage(i, map[string]interface{}{"type": "candidate", "sid": "1", "roomType": st,
+					"payload": map[string]interface{}{"candidate": map[string]interface{}{"candidate": "candidate:0 1 UDP 1 192.0.2.1 9 typ host"}}})
+			}
+			if msg.CheckValid() == nil {
+				w.hub.processMessageMsg(s, msg)
+			}
+			if rb.chance(1, 2) {
+				runtime.Gosched()
+			}
+		}
+	}()
+	go func() {
+		defer wg.Done()
+		for k := 0; k < n/4; k++ {
+			if room := s.GetRoom(); room != nil {
+				flags := FlagInCall
+				if rc.chance(1, 3) {
+					flags = 0
+				}
+				entry := map[string]interface{}{"sessionId": s.PublicId(), "inCall": float64(flags)}
+				room.PublishUsersInCallChanged([]map[string]interface{}{entry}, []map[string]interface{}{entry})
+			}
+			runtime.Gosched()
+		}
+	}()
+	wg.Wait()
+	synctest.Wait()
 }
 
 func vC08Exec(t *testing.T, c *vCase) {
